@@ -523,7 +523,21 @@ namespace
                 for (auto& c : x.cmds)
                 {
                     const std::string& op = c.op;
-                    if (op == "an")
+                    if (op == "anc" || op == "anr" || op == "tnc")
+                    {
+                        // size relative to what the subject reports: capacity_left() - d (anc, tnc) or
+                        // next_capacity() - d (anr): requests at and around the end of a block
+                        Scal      sc   = cur->scal(1);
+                        long long base = op == "anr" ? sc.ncap : sc.cap;
+                        long long sz   = base - c.arg(0);
+                        if (base < 0 || base > (1 << 24) || sz < 1)
+                            continue;
+                        Cmd c2;
+                        c2.op = op == "tnc" ? "tn" : "an";
+                        c2.a  = {sz, c.arg(1, 1)};
+                        alloc(c2, false, op == "tnc");
+                    }
+                    else if (op == "an")
                         alloc(c, false, false);
                     else if (op == "aa")
                         alloc(c, true, false);
